@@ -726,6 +726,9 @@ def generic_check(mod, tier, seed):
             uniq.append(c)
     cases = uniq
     evaluate(binpath, cases, timeout_s=getattr(mod, "TIMEOUT", 5.0))
+    if hasattr(mod, "recheck"):
+        # optional module hook: re-run suspicious cases (e.g. watchdog hits under machine load) on their own
+        mod.recheck(binpath, cases)
     failing, mismatching = classify_cases(mod, cases, known, res)
 
     if (broken_names or mismatching) and not failing and tier == "quick":
@@ -785,6 +788,7 @@ def generic_check(mod, tier, seed):
         outcomes[k] = outcomes.get(k, 0) + 1
     return finish(res, mod, samples, len(cases), nontriv, mod.RULE,
                   {"generator_distribution": dist, "impl_outcome_kinds": outcomes,
+                   "unmodelled_cases": sum(1 for c in cases if c.model == getattr(mod, "UNMODELLED", None)),
                    "search_tier": search_tier,
                    "theorems": [{"name": t["name"], "axioms": t["axioms"]} for t in ths]})
 
